@@ -618,7 +618,9 @@ fn cases_for(j: &Job, tier: Tier) -> Vec<Case> {
     if tier == Tier::Thorough {
         for c1 in CONTS {
             for c2 in CONTS {
-                conts.push(vec![c1, c2]);
+                if c1 != c2 {
+                    conts.push(vec![c1, c2]);
+                }
             }
         }
     } else {
@@ -630,7 +632,7 @@ fn cases_for(j: &Job, tier: Tier) -> Vec<Case> {
                 for rel in [true, false] {
                     // quick tier: rotate the continuation and the repeat count over the other dimensions
                     let (cont_list, reps): (Vec<&Vec<Cont>>, Vec<u8>) = if tier == Tier::Thorough {
-                        (conts.iter().collect(), vec![1, 2, 3])
+                        (conts.iter().collect(), vec![1, 2])
                     } else {
                         (vec![&conts[(ri + pi + gi) % conts.len()]], vec![1 + ((ri + pi + gi + rel as usize) % 3) as u8])
                     };
